@@ -47,3 +47,26 @@ theorem compute_fracs_window (asset : String) (acctName : Nat → String) (perio
   funext f
   rw [Bool.and_comm]
 end Rp2
+
+namespace Rp2
+/-- **what makes an input computable**: `compute` (= `compute_tax` for one asset) succeeds exactly when lot matching succeeds (every
+    disposal covered, amounts positive, a method for every year — C02) and the balance replay is not rejected (no overdrawn account, or
+    `-n` — C08); nothing else can make it fail, and the date window plays no part in it beyond the to-date of the balance replay -/
+theorem compute_ok_iff (asset : String) (acctName : Nat → String) (period : Int) (allowNeg : Bool) (fromD toD : Option Int)
+    (sched : List (Int × Method)) (ins : List InTx) (outs : List OutTx) (intras : List IntraTx) :
+    (∃ cd, compute asset acctName period allowNeg fromD toD sched ins outs intras = .ok cd) ↔
+      (∃ fs, computeFractions sched ins outs intras = .ok fs) ∧ (∃ bs, balances allowNeg toD ins outs intras = .ok bs) := by
+  unfold compute
+  constructor
+  · rintro ⟨cd, h⟩
+    split at h
+    · cases h
+    · rename_i fs hfs
+      split at h
+      · cases h
+      · rename_i bs hbs
+        exact ⟨⟨fs, hfs⟩, ⟨bs, hbs⟩⟩
+  · rintro ⟨⟨fs, hfs⟩, ⟨bs, hbs⟩⟩
+    simp only [hfs, hbs]
+    exact ⟨_, rfl⟩
+end Rp2
